@@ -456,6 +456,13 @@ func (w *wctx) stmt(s ast.Stmt, in sigSet) (closed, open sigSet) {
 				thenOpen = nil
 			}
 		}
+		if eb, ok := v.Else.(*ast.BlockStmt); ok && w.isPureErrNilTest(v.Cond) {
+			// `if err == nil { go on } else { return n, err }`: the else branch is the error exit
+			elseClosed = nil
+			if terminates(eb.List) {
+				elseOpen = nil
+			}
+		}
 		if v.Else == nil && w.isPureErrNilTest(v.Cond) {
 			// `if err == nil { more I/O }`: errors are collected and tested once afterwards; the path
 			// that skips the body carries an error, it is no wire form
